@@ -20,7 +20,7 @@ RULE = ("kinds: hatvee (vectors of length 1/3/6 incl. exact integers: vex(skew v
         "tr2delta/delta2tr round trip, two-argument form, first-order agreement with log, SE3.delta/Delta). "
         "Non-trivial: |t|>10 and rotation about a non-coordinate axis (adjoint), all components non-zero (hatvee), "
         "rotational and translational parts both non-zero (delta).")
-RULE = RULE + probes.RULE_TEXT + (probes.AUG_TEXT if PROPERTY_ID in probes.AUG_PROPS else "") + probes.VARIANT_TEXT + probes.OWN_TEXT
+RULE = RULE + probes.RULE_TEXT + (probes.AUG_TEXT if PROPERTY_ID in probes.AUG_PROPS else "") + probes.VARIANT_TEXT + probes.OWN_TEXT + probes.EXTRA_RULES.get(PROPERTY_ID, "")
 ASSUMPTIONS = ["scipy.linalg.expm (6x6) and NumPy linear algebra are trusted; reference adjoint/exponential formulas in pbt/refs.py are cross-checked against mpmath at start-up",
                "tolerance 1e-9 (1e-7 where a twist exponential is involved) relative to max(1,|t|) and to the magnitude of the twist operand"]
 
